@@ -7,13 +7,29 @@ import PvModel.Perms
 namespace PvModel.Perms
 open PvModel
 
+/-- `A` = the usual lower-case text of account A, `A^` its all-upper-case text, `A~` a
+mixed-case text of the same letters. -/
+def parseText (w : String) : Text :=
+  if w.endsWith "^" then { acc := String.ofList w.toList.dropLast, sp := .upper }
+  else if w.endsWith "~" then { acc := String.ofList w.toList.dropLast, sp := .mixed }
+  else { acc := w }
+
+def Text.render (t : Text) : String :=
+  match t.sp with
+  | .lower => t.acc
+  | .upper => t.acc ++ "^"
+  | .mixed => t.acc ++ "~"
+
+/-- an address text inside a permissions update: `sdk.MustAccAddressFromBech32` -/
+private def decodeName (w : String) : String := (parseText w).acc
+
 private def parsePerms (s : String) : Option (List Perm) := (splitList s "+").mapM Perm.ofString?
 
 /-- `A:settle+cancel|B:update` -/
 private def parseGrants (s : String) : Option (List (String × List Perm)) :=
   (splitList s).mapM fun ent =>
     match ent.splitOn ":" with
-    | [a, ps] => (parsePerms ps).map fun ps => (a, ps)
+    | [a, ps] => (parsePerms ps).map fun ps => (decodeName a, ps)
     | _ => none
 
 private def grantLt (a b : Grant) : Bool :=
@@ -27,7 +43,7 @@ private def sortBy {α} (lt : α → α → Bool) (xs : List α) : List α := xs
 
 def dump (s : State) : String :=
   let gs := (sortBy grantLt s.grants).map fun g => s!"{g.1}:{g.2.1}:{g.2.2.toString}"
-  let os := (sortBy (fun (a b : Order) => a.id < b.id) s.orders).map fun o => s!"{o.id}:{o.market}:{o.owner}"
+  let os := (sortBy (fun (a b : Order) => a.id < b.id) s.orders).map fun o => s!"{o.id}:{o.market}:{o.owner.render}"
   let ps := (sortBy (fun (a b : Payment) => a.source < b.source || (a.source == b.source && a.extId < b.extId)) s.payments).map
     fun p => s!"{p.source}:{p.extId}:{if p.target = "" then "-" else p.target}"
   let j (xs : List String) := if xs.isEmpty then "-" else ",".intercalate xs
@@ -41,18 +57,23 @@ def parseOp (ws : List String) : Option Op :=
     let m ← (kv rest "m") >>= parseNat?
     let rv ← parseGrants ((kv rest "revoke").getD "-")
     let gr ← parseGrants ((kv rest "grant").getD "-")
-    let ra := splitList ((kv rest "revokeall").getD "-")
-    pure (.perms admin m { revokeAll := ra, toRevoke := rv, toGrant := gr })
-  | ["call", e, m, caller] => do pure (.call (← Endpoint.ofString? e) (← parseNat? m) caller)
-  | ["order", id, m, owner] => do pure (.order (← parseNat? id) (← parseNat? m) owner)
-  | ["cancel", id, signer] => do pure (.cancel (← parseNat? id) signer)
+    let ra := (splitList ((kv rest "revokeall").getD "-")).map decodeName
+    pure (.perms (parseText admin) m { revokeAll := ra, toRevoke := rv, toGrant := gr })
+  | ["call", e, m, caller] => do pure (.call (← Endpoint.ofString? e) (← parseNat? m) (parseText caller))
+  | ["hasperm", m, a, p] => do pure (.hasperm (← parseNat? m) (parseText a) (← Perm.ofString? p))
+  | ["order", id, m, owner] => do pure (.order (← parseNat? id) (← parseNat? m) (parseText owner))
+  | ["cancel", id, signer] => do pure (.cancel (← parseNat? id) (parseText signer))
   | ["pay", source, ext, target] => some (.pay source ext (if target = "-" then "" else target))
   | ["accept", source, ext, signer] => some (.accept source ext signer)
   | ["reject", source, ext, signer] => some (.reject source ext signer)
   | ["cancelpay", signer, ext] => some (.cancelpay signer ext)
   | ["retarget", signer, ext, nt] => some (.retarget signer ext (if nt = "-" then "" else nt))
   | "gov" :: name :: caller :: rest =>
-    some (.gov name caller { market := ((kv rest "m") >>= parseNat?).getD 0, subject := (kv rest "subj").getD "",
+    let c := parseText caller
+    let (mod, msg) := match name.splitOn "." with
+      | m :: rest => (m, ".".intercalate rest)
+      | [] => ("", name)
+    some (.gov mod msg c { market := ((kv rest "m") >>= parseNat?).getD 0, subject := (kv rest "subj").getD "",
                              denom := (kv rest "d").getD "", nameKind := (kv rest "nm").getD "" })
   | _ => none
 
@@ -69,6 +90,12 @@ def verdict (s : State) (op : Op) (r : String) (tag : String := "") : String :=
     let allowed := endpointAllowed s e m caller
     if r = "pass" ∧ !allowed then s!"fail:endpoint_without_perm:{e.name}"
     else if r = "err:perm" ∧ allowed then s!"fail:endpoint_rejects_permitted:{e.name}" else "ok"
+  | .hasperm m a p =>
+    -- the guard itself, under any spelling: true only for the authority's letters or a text that
+    -- decodes to an account holding exactly (m, account, p)
+    let spec := a.fold = s.authority ∨ ∃ x, a.decode = some x ∧ (m, x, p) ∈ s.grants
+    if r = "true" ∧ ¬ spec then "fail:haspermission_without_grant"
+    else if r = "false" ∧ spec then "fail:haspermission_rejects_granted" else "ok"
   | .order .. => "-"
   | .cancel id signer =>
     match s.orders.find? (·.id = id) with
@@ -94,8 +121,9 @@ def verdict (s : State) (op : Op) (r : String) (tag : String := "") : String :=
     match findPayment s signer ext with
     | none => if r = "ok" then "fail:payment_retargeted_by_non_source" else "ok"
     | some _ => "ok"
-  | .gov name caller _ =>
-    let allowed := govAllowed s caller
+  | .gov mod msg caller _ =>
+    let name := mod ++ "." ++ msg
+    let allowed := govAllowed s mod msg caller
     if r = "pass" ∧ !allowed then
       -- a caller other than the authority was not turned away: either its request was executed …
       if tag = "#ok" then s!"fail:gov_endpoint_open:{name}"
